@@ -489,6 +489,7 @@ inline bool run_more_family(std::string const& family, Rng& sr, uint64_t i, bool
   if (family == "backtrace") ok = backtrace_S(sr, i);
   else if (family == "threads") ok = g_mode_s ? threads_S(sr, i) : threads_F(sr, i);
   else if (family == "faults") ok = faults_S(sr, i);
+  else if (family == "btfaults") ok = btfaults_S(sr, i);
   else if (family == "drop") ok = g_mode_s ? drop_S(sr, i) : drop_F(sr, i);
   else if (family == "progress") ok = g_mode_s ? progress_S(sr, i) : progress_F(sr, i);
   else if (family == "levels") ok = g_mode_s ? levels_S(sr, i) : levels_F(sr, i);
